@@ -331,24 +331,24 @@ pub const LISTS: &[&[&str]] = &[
     &[""], &["", ""], &["A", "", "B"], &["", "B", ""], &["a", "b", "c", "d", "e", "f"], &[" ", "A,B", "and"],
 ];
 
-fn dec(m: i64, p: i16) -> FixedDecimal {
+pub fn dec(m: i64, p: i16) -> FixedDecimal {
     FixedDecimal::from(m).multiplied_pow10(p)
 }
-fn date(d: (i32, u8, u8)) -> Date<AnyCalendar> {
+pub fn date(d: (i32, u8, u8)) -> Date<AnyCalendar> {
     Date::try_new_iso_date(d.0, d.1, d.2).unwrap().to_any()
 }
-fn time(t: Tm) -> Time {
+pub fn time(t: Tm) -> Time {
     Time::try_new(t.0, t.1, t.2, t.3).unwrap()
 }
-fn datetime(d: (i32, u8, u8), t: Tm) -> DateTime<AnyCalendar> {
+pub fn datetime(d: (i32, u8, u8), t: Tm) -> DateTime<AnyCalendar> {
     DateTime::new(date(d), time(t))
 }
 
-fn guard(f: impl FnOnce() -> String) -> String {
+pub fn guard(f: impl FnOnce() -> String) -> String {
     catch_unwind(AssertUnwindSafe(f)).unwrap_or_else(|_| "PANIC".to_string())
 }
 
-fn html(v: impl IntoView) -> String {
+pub fn html(v: impl IntoView) -> String {
     let owner = Owner::new();
     owner.with(|| v.to_html())
 }
@@ -494,7 +494,7 @@ pub fn formatter_of_text(s: &str) -> Option<pf::Formatter> {
     }
 }
 
-fn n_values(f: &pf::Formatter) -> usize {
+pub fn n_values(f: &pf::Formatter) -> usize {
     match f {
         pf::Formatter::Number(_) | pf::Formatter::Currency(..) => NUMS.len(),
         pf::Formatter::Date(_) => DATES.len(),
@@ -612,6 +612,7 @@ pub fn run_rt() {
         }
     }
     run_format_macros(&mut o);
+    crate::m_dflt::run(&mut o);
     // last: options ICU4X refuses (a panic here must not disturb anything above)
     for (ln, loc) in LOCALES.iter().copied() {
         let mut lines = vec![];
